@@ -1,4 +1,5 @@
 import ComposeVerif.Model.Include
+import ComposeVerif.Model.IncludeResolve
 import ComposeVerif.Gen.IncludeFacts
 /-!
 # C06 — the functions of `loader/include.go` the model mirrors are the ones in the source now
@@ -142,6 +143,51 @@ theorem ToConfigFiles_is_source :
 theorem transformInclude_is_source :
     CV.Gen.Include.body_transformInclude =
       "{ switch v := data.(type) { case map[string]any: return v, nil case string: return map[string]any{ \"path\": v, }, nil default: return data, fmt.Errorf(\"%s: invalid type %T for external\", p, v) } }" := by
+  rfl
+
+/-! ## round 6: the last statement of `loadYamlModel` and the three resolvers (→ `Model/IncludeResolve.lean`) -/
+
+/-- the model of the last statement: which resolvers run for an included model / a project on its own, in the order the
+model composes them (`resolveModelEnv`, `resolveEnvironment`).  A dropped or added call breaks this (no body string
+involved) -/
+theorem included_branch_calls_are_source :
+    CV.Gen.Include.includedTests = 1 ∧
+    CV.Gen.Include.ownBranchCalls = ["ResolveEnvironment"] ∧
+    CV.Gen.Include.includedBranchCalls = ["resolveServicesEnvironment", "resolveSecretsEnvironment"] ∧
+    CV.Gen.Include.resolveEnvironmentCalls =
+      ["resolveServicesEnvironment", "resolveSecretsEnvironment", "resolveConfigsEnvironment"] := by decide
+
+/-- the key under which a resolved secret travels is the model's `secretCarrier` -/
+theorem secret_carrier_is_source : CV.Gen.Include.secretConfigXValue = secretCarrier := by decide
+
+/-- `loadYamlModel` is the function that was modelled (→ `IncludePipe.loadYaml` / `loadYamlOwn`, last statement → `resolveModelEnv`) -/
+theorem loadYamlModel_is_source :
+    CV.Gen.Include.body_loadYamlModel =
+      "{ var ( dict = map[string]interface{}{} err error ) workingDir, environment := config.WorkingDir, config.Environment for _, file := range config.ConfigFiles { dict, _, err = loadYamlFile(ctx, file, opts, workingDir, environment, ct, dict, included) if err != nil { return nil, err } } if !opts.SkipDefaultValues { dict, err = transform.SetDefaultValues(dict) if err != nil { return nil, err } } if !opts.SkipValidation { if err := validation.Validate(dict); err != nil { return nil, err } } if opts.ResolvePaths { var remotes []paths.RemoteResource for _, loader := range opts.RemoteResourceLoaders() { remotes = append(remotes, loader.Accept) } err = paths.ResolveRelativePaths(dict, config.WorkingDir, remotes) if err != nil { return nil, err } } if len(included) == 0 { ResolveEnvironment(dict, config.Environment) } else { resolveServicesEnvironment(dict, config.Environment) resolveSecretsEnvironment(dict, config.Environment) } return dict, nil }" := by
+  rfl
+
+/-- `ResolveEnvironment` (→ `resolveEnvironment`) -/
+theorem ResolveEnvironment_is_source :
+    CV.Gen.Include.body_ResolveEnvironment =
+      "{ resolveServicesEnvironment(dict, environment) resolveSecretsEnvironment(dict, environment) resolveConfigsEnvironment(dict, environment) }" := by
+  rfl
+
+/-- `resolveServicesEnvironment` (→ `resolveServicesEnvironment` / `resolveService` / `resolveEnvList`) -/
+theorem resolveServicesEnvironment_is_source :
+    CV.Gen.Include.body_resolveServicesEnvironment =
+      "{ services, ok := dict[\"services\"].(map[string]any) if !ok { return } for service, cfg := range services { serviceConfig, ok := cfg.(map[string]any) if !ok { continue } serviceEnv, ok := serviceConfig[\"environment\"].([]any) if !ok { continue } envs := []any{} for _, env := range serviceEnv { varEnv, ok := env.(string) if !ok { continue } if found, ok := environment[varEnv]; ok { envs = append(envs, fmt.Sprintf(\"%s=%s\", varEnv, found)) } else { envs = append(envs, varEnv) } } serviceConfig[\"environment\"] = envs services[service] = serviceConfig } dict[\"services\"] = services }" := by
+  rfl
+
+/-- `resolveSecretsEnvironment` (→ `resolveSection "secrets" secretCarrier` / `resolveSource`) -/
+theorem resolveSecretsEnvironment_is_source :
+    CV.Gen.Include.body_resolveSecretsEnvironment =
+      "{ secrets, ok := dict[\"secrets\"].(map[string]any) if !ok { return } for name, cfg := range secrets { secret, ok := cfg.(map[string]any) if !ok { continue } env, ok := secret[\"environment\"].(string) if !ok || env == \"\" { continue } if found, ok := environment[env]; ok { secret[types.SecretConfigXValue] = found } secrets[name] = secret } dict[\"secrets\"] = secrets }" := by
+  rfl
+
+/-- `resolveConfigsEnvironment` (→ `resolveSection "configs" "content"` / `resolveSource`) -/
+theorem resolveConfigsEnvironment_is_source :
+    CV.Gen.Include.body_resolveConfigsEnvironment =
+      "{ configs, ok := dict[\"configs\"].(map[string]any) if !ok { return } for name, cfg := range configs { config, ok := cfg.(map[string]any) if !ok { continue } env, ok := config[\"environment\"].(string) if !ok || env == \"\" { continue } if found, ok := environment[env]; ok { config[\"content\"] = found } configs[name] = config } dict[\"configs\"] = configs }" := by
   rfl
 
 end CV.Include
